@@ -338,3 +338,45 @@ NOT_COVERED = [
 EXPLANATION = ("Constant.__init__ returns normally iff compliant(type, value) (oracle from the statement); the ranges used "
                "are tied to the real inclusive_value_range bodies by finite instantiation over every width 1..64 and to "
                "FloatType.__init__'s magnitude table (exact rationals).")
+
+
+def _gen_float_init(rng, i):
+    return {"n": rng.choice([16, 32, 64, 16, 32, 64, 8, 24, 1, 0, 65, 128, 33]), "cast": rng.choice(["s", "t"])}
+
+
+def _build_float_init(desc):
+    from pydsdl import _serializable as S
+
+    cm = S.PrimitiveType.CastMode.SATURATED if desc["cast"] == "s" else S.PrimitiveType.CastMode.TRUNCATED
+    return (lambda: S.FloatType(desc["n"], cm)), {"bit_length": desc["n"], "cast_mode": cm}
+
+
+def _float_init_native_post(s):
+    # the class invariant of FloatType is part of what __init__ must establish (native reading)
+    return s.self._magnitude == MAG(s.self._bit_length)
+
+
+_FloatInit.native_extra_post = staticmethod(_float_init_native_post)
+
+
+def _gen_range(kinds):
+    def gen(rng, i):
+        k = rng.choice(kinds)
+        if k == "int":
+            return {"k": k, "n": 2 + (i % 63)}
+        if k == "float":
+            return {"k": k, "n": [16, 32, 64][i % 3]}
+        return {"k": k, "n": 1 + (i % 64), "cast": rng.choice(["s", "t"])}
+
+    return gen
+
+
+def _build_range(desc):
+    t = _mk_type(desc)
+    return (lambda: t.inclusive_value_range), {"self": t}
+
+
+NATIVE.add(FLOAT_T + ".__init__", _gen_float_init, _build_float_init)
+NATIVE.add(SIGNED_T + ".inclusive_value_range", _gen_range(["int"]), _build_range)
+NATIVE.add(UNSIGNED_T + ".inclusive_value_range", _gen_range(["uint"]), _build_range)
+NATIVE.add(FLOAT_T + ".inclusive_value_range", _gen_range(["float"]), _build_range)
